@@ -7,8 +7,7 @@ callees themselves — `calculate_client_proof`, `calculate_server_proof`, `calc
 results are the same model functions: so the order of the arguments at each call site and the order of the parameters in each callee's
 signature, both re-read from the source on every run, fit together, and the hand-written table is not part of what has to be believed for
 these calls.  (Still meant by the table: the big-integer functions `calculate_S`, tied by the formula theorems, and `calculate_interleaved`,
-tied by `C03_translated_interleaved` up to the text of a panic message; `SrpClient::calculate_reconnect_values`; the TBC and Wrath copies of the world-login pair, which have the same call-site text
-as the Vanilla pair that IS linked.)  A linked callee is run on an empty draw list and only its value is kept.
+tied by `C03_translated_interleaved` up to the text of a panic message; the `into_client_header_crypto` of TBC and Wrath, which have the same call-site text as the Vanilla one that IS linked.)  A linked callee is run on an empty draw list and only its value is kept.
 -/
 import WowSrp.Props.Source.ApiBase
 import WowSrp.Gen.CodeHash
